@@ -142,3 +142,10 @@ Proof.
   rewrite getlines_unlines; [split; [reflexivity|exact Hs]|].
   eapply sublist_Forall; [exact Hs|apply clines_nonl].
 Qed.
+
+(* the oracle applied to what regress_log_trim of the implementation wrote
+   (added): exactly the specified bytes; it accepts the model and nothing else *)
+Definition spec_ok_trim (file out : bytes) : bool := beq out (trim_spec file).
+
+Theorem oracle_trim_exact file out : spec_ok_trim file out = true <-> out = trim file.
+Proof. unfold spec_ok_trim. rewrite beq_eq, trim_refines_spec. tauto. Qed.
